@@ -37,20 +37,20 @@ type vNO struct {
 }
 
 type vRes struct {
-	St    string   `json:"st"` // ok | short (message without flows + error) | reject | panic
-	Hdr   []vNO    `json:"hdr"`
-	Flows [][]vNO  `json:"flows"`
-	Err   string   `json:"err,omitempty"`
-	Panic string   `json:"panic,omitempty"`
-	JSON  *string  `json:"json,omitempty"`
-	JErr  string   `json:"jerr,omitempty"`
-	Agent string   `json:"agent,omitempty"`
-	Alloc uint64   `json:"alloc,omitempty"`
-	Ns    int64    `json:"ns,omitempty"`
-	NRec  int      `json:"nrec"`
-	ExpOK bool     `json:"exp_unchanged"`
-	MaxF  int      `json:"maxf"`
-	Recs  [][]vNO  `json:"recs"`
+	St    string  `json:"st"` // ok | short (message without flows + error) | reject | panic
+	Hdr   []vNO   `json:"hdr"`
+	Flows [][]vNO `json:"flows"`
+	Err   string  `json:"err,omitempty"`
+	Panic string  `json:"panic,omitempty"`
+	JSON  []byte  `json:"json,omitempty"`
+	JErr  string  `json:"jerr,omitempty"`
+	Agent string  `json:"agent,omitempty"`
+	Alloc uint64  `json:"alloc,omitempty"`
+	Ns    int64   `json:"ns,omitempty"`
+	NRec  int     `json:"nrec"`
+	ExpOK bool    `json:"exp_unchanged"`
+	MaxF  int     `json:"maxf"`
+	Recs  [][]vNO `json:"recs"`
 }
 
 type vJobRes struct {
@@ -169,8 +169,7 @@ func vRunMsg(m vMsg, wantJSON, measure bool) (res vRes) {
 		if jerr != nil {
 			res.JErr = jerr.Error()
 		} else {
-			s := string(b)
-			res.JSON = &s
+			res.JSON = append([]byte{}, b...)
 		}
 	}
 	return
